@@ -272,6 +272,7 @@ type rxRunner struct {
 	lateRuns int32 // runs entered after Stop returned
 	failAt   int64 // fail (non-retry) at this run number (0: never)
 	retryAt  int64
+	lateReg  bool // reads the data first and registers the dependency afterwards (on a resource that may be invalidated by then)
 }
 
 func (w *rxWorld) newResource() (*reactive.Resource, interface{}) {
@@ -328,6 +329,7 @@ func c04Scenario(c *Ctx, cs c04Case) (labels []rxLabel, verdict string, detail m
 		if r.Chance(0.2) {
 			rn.retryAt = int64(1 + r.Intn(3))
 		}
+		rn.lateReg = !cs.Strobe && r.Chance(0.4) // (a Strobe between read and registration leaves nothing to notice: registering first is the contract there)
 		runners = append(runners, rn)
 	}
 	ctx, cancelAll := context.WithCancel(context.Background())
@@ -346,6 +348,26 @@ func c04Scenario(c *Ctx, cs c04Case) (labels []rxLabel, verdict string, detail m
 			seen := map[int]int64{}
 			for _, si := range rn.reads {
 				s := w.slots[si]
+				if rn.lateReg {
+					// read first, register afterwards: the resource may have been invalidated in between; registering
+					// a dependency on an invalidated resource must invalidate this run
+					s.mu.Lock()
+					if s.res.Invalidated() {
+						nr, nn := mk()
+						s.res, s.node = nr, nn
+					}
+					res := s.res
+					v := s.version
+					s.mu.Unlock()
+					if int(n)%2 == 0 {
+						time.Sleep(time.Duration(20+int(n)%5*30) * time.Microsecond)
+					} else {
+						runtime.Gosched()
+					}
+					reactive.AddDependency(ctx, res, nil)
+					seen[si] = v
+					continue
+				}
 				// register the dependency first, then read the data; a resource that lost all its
 				// dependants has been released (and thereby invalidated) for good: replace it
 				s.mu.Lock()
